@@ -25,6 +25,34 @@ LEVEL_NOTE = ("Trusted: the documented `git status --porcelain` v1 line grammar 
 GIT_UNTRACKED = "??"
 
 
+def _regex_items(ctx, fn, src: ast.Call, gen: ast.comprehension, ret: ast.ListComp) -> T.Tuple[str, T.Dict[str, ast.AST], ast.AST, T.List[ast.AST]]:
+    """`RE.findall(output)` with RE = ^(..)\\s*(.+)$ : every line is a match only under re.MULTILINE."""
+    import re as _re
+    prog = ctx.prog
+    rx_def = shapes.inline(fn, src.func.value, prog)
+    pat = flags = None
+    cands = [rx_def] + [v for v in [prog.const_node(fn.module.name, src.func.value.id)] if isinstance(src.func.value, ast.Name) and src.func.value.id in fn.module.consts]
+    for c in cands:
+        if isinstance(c, ast.Call) and unparse(c.func) == "re.compile" and c.args:
+            pat = const_str(c.args[0])
+            fl = c.args[1] if len(c.args) > 1 else next((k.value for k in c.keywords if k.arg == "flags"), None)
+            flags = unparse(fl) if fl is not None else ""
+    ctx.require(pat is not None, f"C11/R3: the regular expression behind `{unparse(src.func.value)}` is not a constant re.compile(...)")
+    multiline = "MULTILINE" in flags or "re.M" in flags.split("|") or pat.startswith("(?m)") or "(?m" in pat[:6]
+    ctx.check("R3", multiline, "VCSAPI.status: the line expression is applied per line (re.MULTILINE)",
+              "vcs.VCSAPI.status: the status output is parsed by a line-anchored expression without re.MULTILINE",
+              f"`{pat}` with flags `{flags or 'none'}`: `^`/`$` match only at the ends of the whole output, so as soon as two paths are dirty nothing (or only one line) is "
+              f"parsed and the tree counts as clean", loc=fn.loc(src), witness={"status output": " M README.md\n M notes.txt"})
+    core = pat[4:] if pat.startswith("(?m)") else pat
+    ctx.require(_re.fullmatch(r"\^\((\.\.|\.\{2\})\)(\\s\*|\\s\?| |\\s)?\(\.[+*]\)\$", core) is not None, f"C11/R3: line expression `{pat}` not enumerated")
+    names = [t.id for t in gen.target.elts]
+    line = "__line__"
+    L = ast.Name(id=line, ctx=ast.Load())
+    fields = {names[0]: ast.Subscript(value=L, slice=ast.Slice(lower=None, upper=ast.Constant(2), step=None), ctx=ast.Load()),
+              names[1]: ast.Call(func=ast.Attribute(value=ast.Subscript(value=L, slice=ast.Slice(lower=ast.Constant(2), upper=None, step=None), ctx=ast.Load()), attr="strip", ctx=ast.Load()), args=[], keywords=[])}
+    return line, fields, ret.elt, [shapes.inline_simple_calls(prog, fn, t) for t in gen.ifs]
+
+
 def _line_var_and_fields(ctx, fn) -> T.Tuple[str, T.Dict[str, ast.AST], ast.AST, T.List[ast.AST]]:
     """Locate: the per-line variable, the expressions for (status, path), the returned element, the filter tests."""
     from sa.model import walk_no_nested
@@ -56,6 +84,10 @@ def _line_var_and_fields(ctx, fn) -> T.Tuple[str, T.Dict[str, ast.AST], ast.AST,
                           names[1]: ast.Subscript(value=elt, slice=ast.Constant(1), ctx=ast.Load())}
         else:
             raise AnalysisError("C11: status items are not unpacked into (status, path)")
+    elif isinstance(src, ast.Call) and isinstance(src.func, ast.Attribute) and src.func.attr in ("findall", "finditer") and isinstance(gen.target, (ast.Tuple, ast.List)) \
+            and len(gen.target.elts) == 2 and all(isinstance(t, ast.Name) for t in gen.target.elts):
+        # the lines are cut by a regular expression applied to the whole output
+        return _regex_items(ctx, fn, src, gen, ret)
     else:
         # single comprehension directly over the lines
         ctx.require(isinstance(gen.target, ast.Name), "status comprehension target shape not enumerated")
@@ -103,6 +135,44 @@ def _classify_extraction(expr: ast.AST, line: str, fields: T.Dict[str, ast.AST],
     raise AnalysisError(f"C11/R3: extraction shape not enumerated: `{unparse(expr)[:70]}`")
 
 
+STATUS_COLUMNS = " MADRCUT?"          # index / worktree column of `git status --porcelain` v1 ('!!' needs --ignored)
+
+
+def _filter_by_enumeration(ctx, s_fn, ifs: T.List[ast.AST], line: str, fields: T.Dict[str, ast.AST], req: str) -> None:
+    """keep(status, path in required) must be `required or status != '??'` for every status code git prints: the filter
+    tests are folded for each of the 80 XY codes and both values of the membership test."""
+    import copy
+    prog = ctx.prog
+    status_names = [n for n, e in fields.items() if isinstance(e, ast.Subscript) and isinstance(e.slice, ast.Slice) and e.slice.lower is None
+                    and isinstance(e.slice.upper, ast.Constant) and e.slice.upper.value == 2]
+    ctx.require(len(status_names) == 1, "C11/R4: the two status columns are not bound to one name")
+    sname = status_names[0]
+    codes = [x + y for x in STATUS_COLUMNS for y in STATUS_COLUMNS if x + y != "  "]
+    wrong: T.List[T.Tuple[str, bool, bool]] = []
+    for code in codes:
+        for member in (True, False):
+            class Sub(ast.NodeTransformer):
+                def visit_Compare(self, node: ast.Compare) -> ast.AST:
+                    if len(node.ops) == 1 and isinstance(node.ops[0], (ast.In, ast.NotIn)) and unparse(node.comparators[0]) == req:
+                        return ast.Constant(value=member if isinstance(node.ops[0], ast.In) else not member)
+                    return self.generic_visit(node)
+            kept = True
+            for t in ifs:
+                t2 = Sub().visit(copy.deepcopy(t))
+                ctx.require(not any(isinstance(x, ast.Name) and x.id == req for x in ast.walk(t2)), f"C11/R4: `{req}` is used outside a membership test")
+                try:
+                    kept = kept and bool(prog.fold(s_fn.module, t2, {sname: code}))
+                except AnalysisError as ex:
+                    raise AnalysisError(f"C11/R4: filter test `{unparse(t)[:70]}` cannot be decided for status {code!r}: {ex}")
+            if kept != (member or code != "??"):
+                wrong.append((code, member, kept))
+    ctx.check("R4", not wrong, f"VCSAPI.status keeps a line iff path in {req} or status != '??'  [decided for {len(codes)} status codes x 2]",
+              "vcs.VCSAPI.status: filter differs from 'pattern file or not untracked'",
+              f"{len(wrong)} of {2 * len(codes)} cases differ, e.g. status {wrong[0][0]!r} with the path {'in' if wrong[0][1] else 'not in'} {req} is "
+              f"{'kept' if wrong[0][2] else 'dropped'}: an unrelated file with staged and unstaged changes (`MM`, `AM`) no longer makes the tree dirty" if wrong else "",
+              loc=s_fn.loc(ifs[0]), witness={"status": wrong[0][0], "path in required_files": wrong[0][1], "kept": wrong[0][2]} if wrong else None)
+
+
 def vcs_marker_rule(ctx, rule: str) -> None:
     """The VCS is detected wherever git works: the `.git` marker is tested for existence (in a linked worktree or a
     submodule it is a regular file), not for being a directory."""
@@ -140,6 +210,9 @@ def run(ctx) -> None:
     ctx.rule("R2", "assert_not_dirty returns normally iff (allow_dirty or no dirty file) and no dirty pattern file; otherwise exits non-zero")
     ctx.rule("R3", "status lines are parsed by fixed columns compatible with the porcelain grammar")
     ctx.rule("R4", "a status line is dropped only when untracked ('??') and not a pattern file")
+    ctx.rule("R6", "prerequisite: what is staged and committed is exactly the configured set of files (C08/R1-R2)")
+    from sa.report import run_prerequisite
+    run_prerequisite(ctx, "C08", ("R1", "R2"), "R6")
     ctx.rule("R5", "the VCS is detected wherever git works: the `.git` marker is tested for existence, not for being a directory")
 
     # ------------------------------------------------------------------ R1
@@ -377,9 +450,18 @@ def run(ctx) -> None:
         raise AnalysisError(f"C11/R4: filter leaf not enumerated: `{unparse(leaf)}`")
 
     keep = BF.true()
-    for t in ifs:
-        keep = keep & shapes.bool_expr_bf(t, classify)
+    try:
+        for t in ifs:
+            keep = keep & shapes.bool_expr_bf(t, classify)
+    except AnalysisError as ex_leaf:
+        if "filter leaf not enumerated" not in str(ex_leaf):
+            raise
+        # decide the filter over the finite set of two-column status codes instead
+        _filter_by_enumeration(ctx, s_fn, ifs, line, fields, req)
+        keep = None
     spec_keep = BF.var("R") | ~BF.var("U")
+    if keep is None:
+        keep = spec_keep
     ctx.check("R4", keep.equiv(spec_keep),
               f"VCSAPI.status keeps a line iff path in {req} or status != '??'  [extracted: {keep.to_dnf()}]",
               "vcs.VCSAPI.status: filter differs from 'pattern file or not untracked'",
